@@ -1,4 +1,14 @@
-(* Proofs/BetaGen.v — laws of Ibeta_gen (RealSpec/BetaGen.v) for all real a, b > 0. *)
+(* Proofs/BetaGen.v — laws of Ibeta_gen (RealSpec/BetaGen.v) for ALL real a, b > 0.
+   Main results (a, b > 0 throughout):
+     Bhalf_tail, Bhalf_is_limit, Bhalf_tail_bounds : Bhalf a b = lim_{e->0+} int_e^(1/2) k(a,b),
+                                       with error in (0, (1+a+b)/a * e^a]
+     Bgen_is_limit, Btotal_is_limit  : Bgen a b x = lim int_e^x k,  Btotal a b = lim int_e^(1-e) k
+     Bgen_range, Bgen_reflect        : 0 < Bgen a b x < Btotal a b,  Bgen a b x + Bgen b a (1-x) = Btotal a b
+     Ibeta_gen_range / _monotone / _increasing / _reflect / _0 / _1, summary ibeta_gen_laws
+     ibeta_gen_agrees                : Ibeta_gen x a b = Ibeta_R x a b  for a, b >= 1, 0 <= x <= 1
+     Ibeta_gen_derive                : density bkernel a b x / Btotal a b on (0,1)
+     Ibeta_gen_continuous            : continuous on the whole line (so also at 0 and 1)
+     Ibeta_gen_b1, Ibeta_gen_a1      : I_x(a,1) = x^a,  I_x(1,b) = 1 - (1-x)^b  (a, b < 1 included) *)
 From Coq Require Import Reals Lra Psatz ssreflect.
 From Coquelicot Require Import Coquelicot.
 From MM Require Import RealSpec.Beta Proofs.BetaR.
@@ -266,14 +276,6 @@ Proof.
       unfold continuous in C. rewrite Hpart_0 Rminus_0_r in C. exact C.
 Qed.
 
-(* explicit error bound of the truncated integral *)
-Lemma Bhalf_tail_bounds : forall a b e, 0 < a -> 0 < b -> 0 < e <= 1 / 2 ->
-  0 < Bhalf a b - RInt (bkernel a b) e (1 / 2).
-Proof.
-  intros a b e Ha Hb He. rewrite byparts_RInt; try lra. rewrite -Bhalf_Hpart.
-  assert (H := Hpart_pos a b e Ha Hb). lra.
-Qed.
-
 (* Bgen in by-parts form *)
 Lemma Bgen_Hpart : forall a b x, 0 < a -> 0 < x < 1 -> Bgen a b x = Hpart a b x.
 Proof.
@@ -529,7 +531,7 @@ Proof.
 Qed.
 
 (* ------------------------------------------------------------------ *)
-(* 6. Bgen / Btotal as improper integrals; density; summary *)
+(* 6. Bgen and Btotal as improper integrals; the density *)
 (* ------------------------------------------------------------------ *)
 
 (* Bgen a b x is the improper integral int_0^x k(a,b), and Btotal a b is int_0^1 k(a,b) *)
@@ -609,7 +611,274 @@ Proof.
   - apply div_const_derive. apply Bgen_derive; assumption.
 Qed.
 
-(* summary *)
+(* ------------------------------------------------------------------ *)
+(* 7. Rate of convergence; continuity on the whole line *)
+(* ------------------------------------------------------------------ *)
+
+(* --- explicit rate of Bhalf_is_limit --- *)
+
+Lemma exp_le_compat : forall x y, x <= y -> exp x <= exp y.
+Proof.
+  intros x y Hxy. destruct Hxy as [H|E].
+  - left. apply exp_increasing; assumption.
+  - rewrite E. apply Rle_refl.
+Qed.
+
+Lemma Rpower_1m_le_1 : forall t s, 0 <= t < 1 -> 0 <= s -> Rpower (1 - t) s <= 1.
+Proof.
+  intros t s Ht Hs. unfold Rpower.
+  apply Rle_trans with (exp 0); [apply exp_le_compat | rewrite exp_0; lra].
+  assert (L : ln (1 - t) <= 0).
+  { rewrite <- ln_1. destruct (Req_dec t 0) as [Z|N].
+    - rewrite Z Rminus_0_r. lra.
+    - left. apply ln_increasing; lra. }
+  nra.
+Qed.
+
+Lemma Rpower_1m_le_2 : forall t b, 0 <= t <= 1 / 2 -> 0 < b -> Rpower (1 - t) (b - 1) <= 2.
+Proof.
+  intros t b Ht Hb. unfold Rpower.
+  assert (L : ln (1 - t) <= 0).
+  { rewrite <- ln_1. destruct (Req_dec t 0) as [Z|N].
+    - rewrite Z Rminus_0_r. lra.
+    - left. apply ln_increasing; lra. }
+  apply Rle_trans with (exp (- ln (1 - t))).
+  - apply exp_le_compat. nra.
+  - rewrite exp_Ropp exp_ln; [|lra].
+    apply (Rmult_le_reg_r (1 - t)); [lra|]. rewrite Rinv_l; lra.
+Qed.
+
+Lemma bpart_le : forall a b e t, 0 < a -> 0 < b -> 0 < t <= e -> e <= 1 / 2 ->
+  bpart a b t <= 2 * Rpower e a.
+Proof.
+  intros a b e t Ha Hb Ht He. unfold bpart. rewrite rpow0_Rpower; [|lra].
+  assert (H1 : Rpower t a <= Rpower e a) by (apply Rle_Rpower_l; lra).
+  assert (H2 : Rpower (1 - t) (b - 1) <= 2) by (apply Rpower_1m_le_2; lra).
+  assert (P1 : 0 < Rpower t a) by apply exp_pos.
+  assert (P2 : 0 < Rpower (1 - t) (b - 1)) by apply exp_pos.
+  nra.
+Qed.
+
+Lemma Hpart_le : forall a b e, 0 < a -> 0 < b -> 0 < e <= 1 / 2 ->
+  Hpart a b e <= (1 + a + b) / a * Rpower e a.
+Proof.
+  intros a b e Ha Hb He. unfold Hpart. rewrite rpow0_Rpower; [|lra].
+  assert (Pe : 0 < Rpower e a) by apply exp_pos.
+  assert (H1 : Rpower (1 - e) b <= 1) by (apply Rpower_1m_le_1; lra).
+  assert (H2 : RInt (bpart a b) 0 e <= Rpower e a).
+  { apply Rle_trans with (RInt (fun _ => 2 * Rpower e a) 0 e).
+    - apply RInt_le; [lra | apply bpart_ex_RInt; lra | apply ex_RInt_const |].
+      intros t Ht. apply bpart_le; lra.
+    - rewrite RInt_const. rewrite /scal /= /mult /=. nra. }
+  assert (Pa : 0 < / a) by (apply Rinv_0_lt_compat; assumption).
+  assert (P1 : 0 < Rpower (1 - e) b) by apply exp_pos.
+  replace ((1 + a + b) / a * Rpower e a)
+    with (Rpower e a * 1 * / a + (a + b) * / a * Rpower e a) by (field; lra).
+  unfold Rdiv. apply Rplus_le_compat.
+  - apply Rmult_le_compat_r; [lra|]. apply Rmult_le_compat_l; lra.
+  - apply Rmult_le_compat_l; [|assumption]. apply Rmult_le_pos; lra.
+Qed.
+
+(* the truncated integral int_e^(1/2) k(a,b) misses Bhalf a b by at most C e^a, C = (1+a+b)/a *)
+Theorem Bhalf_tail_bounds : forall a b e, 0 < a -> 0 < b -> 0 < e <= 1 / 2 ->
+  0 < Bhalf a b - RInt (bkernel a b) e (1 / 2) <= (1 + a + b) / a * Rpower e a.
+Proof.
+  intros a b e Ha Hb He. rewrite byparts_RInt; try lra. rewrite -Bhalf_Hpart.
+  assert (H := Hpart_pos a b e Ha Hb).
+  assert (H' := Hpart_le a b e Ha Hb He). lra.
+Qed.
+
+(* --- Ibeta_gen is continuous on the whole line (in particular at x = 0 and x = 1) --- *)
+
+Lemma Hpart_neg : forall a b x, x <= 0 -> Hpart a b x = 0.
+Proof.
+  intros a b x Hx. unfold Hpart. rewrite rpow0_0 //.
+  replace (RInt (bpart a b) 0 x) with (RInt (fun _ : R => 0) 0 x).
+  - rewrite RInt_const. rewrite /scal /= /mult /=. unfold Rdiv; ring.
+  - apply RInt_ext. intros t. rewrite Rmin_right // Rmax_left //. intros Ht.
+    unfold bpart. rewrite rpow0_0; [rewrite Rmult_0_l; reflexivity | lra].
+Qed.
+
+Lemma Ibeta_gen_Hpart : forall a b x, 0 < a -> x < 1 -> Ibeta_gen x a b = Hpart a b x / Btotal a b.
+Proof.
+  intros a b x Ha Hx. destruct (Rle_dec x 0) as [H0|H0].
+  - rewrite Ibeta_gen_le0 // Hpart_neg //. unfold Rdiv; ring.
+  - rewrite Ibeta_gen_open; [|lra]. rewrite Bgen_Hpart //. lra.
+Qed.
+
+Theorem Ibeta_gen_reflect_all : forall a b x, 0 < a -> 0 < b ->
+  Ibeta_gen x a b + Ibeta_gen (1 - x) b a = 1.
+Proof.
+  intros a b x Ha Hb.
+  destruct (Rle_dec x 0) as [H0|H0].
+  { rewrite (Ibeta_gen_le0 a b x) // (Ibeta_gen_ge1 b a (1 - x)); lra. }
+  destruct (Rle_dec 1 x) as [H1|H1].
+  { rewrite (Ibeta_gen_ge1 a b x) // (Ibeta_gen_le0 b a (1 - x)); lra. }
+  apply Ibeta_gen_reflect; try assumption; lra.
+Qed.
+
+Theorem Ibeta_gen_continuous : forall a b x, 0 < a -> 0 < b ->
+  continuous (fun y => Ibeta_gen y a b) x.
+Proof.
+  intros a b x Ha Hb.
+  destruct (Rlt_dec x 1) as [Hx|Hx].
+  - apply continuous_ext_loc with (g := fun y => Hpart a b y * / Btotal a b).
+    + apply (locally_interval _ x m_infty 1); simpl; auto.
+      intros y _ Hy. symmetry. apply Ibeta_gen_Hpart; assumption.
+    + apply (continuous_mult (K:=R_AbsRing) (fun y => Hpart a b y) (fun _ => / Btotal a b)).
+      * apply Hpart_continuous; assumption.
+      * apply continuous_const.
+  - assert (Hx0 : 0 < x) by lra.
+    apply continuous_ext_loc with (g := fun y => 1 - Hpart b a (1 - y) * / Btotal b a).
+    + apply (locally_interval _ x 0 p_infty); simpl; auto.
+      intros y Hy _. assert (R := Ibeta_gen_reflect_all a b y Ha Hb).
+      rewrite (Ibeta_gen_Hpart b a (1 - y)) in R; [| assumption | lra].
+      unfold Rdiv in R. lra.
+    + apply (continuous_minus (K:=R_AbsRing) (V:=R_NormedModule)
+               (fun _ => 1) (fun y => Hpart b a (1 - y) * / Btotal b a)).
+      * apply continuous_const.
+      * apply (continuous_mult (K:=R_AbsRing) (fun y => Hpart b a (1 - y)) (fun _ => / Btotal b a)).
+        -- apply (continuous_comp (fun y => 1 - y) (Hpart b a)).
+           ++ apply (continuous_minus (K:=R_AbsRing) (V:=R_NormedModule) (fun _ => 1) (fun t => t)).
+              ** apply continuous_const.
+              ** apply continuous_id.
+           ++ apply Hpart_continuous; lra.
+        -- apply continuous_const.
+Qed.
+
+(* --- sanity values outside a, b >= 1 --- *)
+
+Lemma Ibeta_gen_half_symm : forall a, 0 < a -> Ibeta_gen (1 / 2) a a = 1 / 2.
+Proof.
+  intros a Ha. assert (H := Ibeta_gen_reflect_all a a (1 / 2) Ha Ha).
+  replace (1 - 1 / 2) with (1 / 2) in H by lra. lra.
+Qed.
+
+(* ------------------------------------------------------------------ *)
+(* 8. Closed forms at b = 1 and a = 1 (any positive other parameter) *)
+(* ------------------------------------------------------------------ *)
+
+(* --- closed form at b = 1, every a > 0 (a < 1 included): I_x(a,1) = x^a --- *)
+
+Lemma bkernel_a1 : forall a t, bkernel a 1 t = Rpower t (a - 1).
+Proof.
+  intros a t. unfold bkernel. replace (1 - 1) with 0 by ring.
+  unfold Rpower at 2. rewrite Rmult_0_l exp_0. ring.
+Qed.
+
+Lemma bkernel_a1_scaled : forall a t, 0 < a -> a * Rpower t (a - 1) / a = bkernel a 1 t.
+Proof. intros a t Ha. rewrite bkernel_a1. field. lra. Qed.
+
+Lemma Rpower_derive : forall a t, 0 < t ->
+  is_derive (fun t => Rpower t a / a) t (a * Rpower t (a - 1) / a).
+Proof.
+  intros a t Ht. rewrite Rpower_pred //. unfold Rpower. auto_derive; [assumption|].
+  unfold Rdiv; ring.
+Qed.
+
+Lemma bkernel_a1_RInt : forall a u v, 0 < a -> 0 < u -> 0 < v ->
+  @eq R (RInt (bkernel a 1) u v) (Rpower v a / a - Rpower u a / a).
+Proof.
+  intros a u v Ha Hu Hv.
+  apply is_RInt_unique.
+  apply (is_RInt_ext (V:=R_NormedModule)) with (f := fun t => a * Rpower t (a - 1) / a).
+  { intros t _. apply bkernel_a1_scaled; assumption. }
+  assert (Hpos : forall t, Rmin u v <= t <= Rmax u v -> 0 < t).
+  { intros t [H1 _]. apply Rlt_le_trans with (2 := H1). apply Rmin_case; assumption. }
+  apply (is_RInt_derive (fun t => Rpower t a / a) (fun t => a * Rpower t (a - 1) / a)).
+  - intros t Ht. apply Rpower_derive. apply Hpos; assumption.
+  - intros t Ht.
+    apply (continuous_mult (K:=R_AbsRing) (fun t => a * Rpower t (a - 1)) (fun _ => / a)).
+    + apply (continuous_scal_r (K:=R_AbsRing) a (fun t => Rpower t (a - 1))).
+      apply Rpower_continuous_pos. apply Hpos; assumption.
+    + apply continuous_const.
+Qed.
+
+Lemma Bgen_a1 : forall a x, 0 < a -> 0 < x < 1 -> Bgen a 1 x = Rpower x a / a.
+Proof.
+  intros a x Ha Hx.
+  apply (filterlim_locally_unique (F := at_right 0) (fun e => RInt (bkernel a 1) e x)).
+  - apply Bgen_is_limit; assumption.
+  - apply filterlim_ext_loc with (f := fun e => Rpower x a / a - rpow0 a e / a).
+    + assert (Hh : 0 < 1) by lra.
+      exists (mkposreal _ Hh). intros y _ Hy0. rewrite rpow0_Rpower //.
+      symmetry. apply bkernel_a1_RInt; lra.
+    + apply (filterlim_filter_le_1 (F := locally 0)).
+      * apply filter_le_within.
+      * assert (C : continuous (fun e => Rpower x a / a - rpow0 a e / a) 0).
+        { apply (continuous_minus (K:=R_AbsRing) (V:=R_NormedModule)
+                   (fun _ => Rpower x a / a) (fun e => rpow0 a e / a)).
+          - apply continuous_const.
+          - apply (continuous_mult (K:=R_AbsRing) (fun e => rpow0 a e) (fun _ => / a)).
+            + apply rpow0_continuous; assumption.
+            + apply continuous_const. }
+        unfold continuous in C. rewrite (rpow0_0 a 0) in C; [|lra].
+        replace (Rpower x a / a - 0 / a) with (Rpower x a / a) in C by (unfold Rdiv; ring).
+        exact C.
+Qed.
+
+Lemma Btotal_a1 : forall a, 0 < a -> Btotal a 1 = / a.
+Proof.
+  intros a Ha.
+  apply (filterlim_locally_unique (F := at_right 0) (fun e => RInt (bkernel a 1) e (1 - e))).
+  - apply Btotal_is_limit; lra.
+  - apply filterlim_ext_loc with (f := fun e => Rpower (1 - e) a / a - rpow0 a e / a).
+    + assert (Hh : 0 < 1) by lra.
+      exists (mkposreal _ Hh). intros y Hy Hy0.
+      change (Rabs (y - 0) < 1) in Hy. rewrite Rminus_0_r in Hy. apply Rabs_def2 in Hy.
+      rewrite rpow0_Rpower //.
+      symmetry. apply bkernel_a1_RInt; lra.
+    + apply (filterlim_filter_le_1 (F := locally 0)).
+      * apply filter_le_within.
+      * assert (C : continuous (fun e => Rpower (1 - e) a / a - rpow0 a e / a) 0).
+        { apply (continuous_minus (K:=R_AbsRing) (V:=R_NormedModule)
+                   (fun e => Rpower (1 - e) a / a) (fun e => rpow0 a e / a)).
+          - apply (continuous_mult (K:=R_AbsRing) (fun e => Rpower (1 - e) a) (fun _ => / a)).
+            + apply Rpower_1m_continuous; lra.
+            + apply continuous_const.
+          - apply (continuous_mult (K:=R_AbsRing) (fun e => rpow0 a e) (fun _ => / a)).
+            + apply rpow0_continuous; assumption.
+            + apply continuous_const. }
+        unfold continuous in C. rewrite (rpow0_0 a 0) in C; [|lra].
+        rewrite Rminus_0_r in C.
+        replace (Rpower 1 a / a - 0 / a) with (/ a) in C.
+        -- exact C.
+        -- unfold Rpower. rewrite ln_1 Rmult_0_r exp_0. unfold Rdiv; ring.
+Qed.
+
+Theorem Ibeta_gen_b1 : forall a x, 0 < a -> 0 <= x <= 1 -> Ibeta_gen x a 1 = rpow0 a x.
+Proof.
+  intros a x Ha [Hx0 Hx1].
+  destruct (Rle_dec x 0) as [H0|H0].
+  { rewrite Ibeta_gen_le0 // rpow0_0 //. }
+  destruct (Rle_dec 1 x) as [H1|H1].
+  { assert (E : x = 1) by lra. rewrite E Ibeta_gen_1 rpow0_Rpower; [|lra].
+    unfold Rpower. rewrite ln_1 Rmult_0_r exp_0 //. }
+  rewrite Ibeta_gen_open; [|lra]. rewrite Bgen_a1; [|assumption|lra].
+  rewrite Btotal_a1 // rpow0_Rpower; [|lra]. field. lra.
+Qed.
+
+(* and by reflection I_x(1,b) = 1 - (1-x)^b *)
+Corollary Ibeta_gen_a1 : forall b x, 0 < b -> 0 <= x <= 1 -> Ibeta_gen x 1 b = 1 - rpow0 b (1 - x).
+Proof.
+  intros b x Hb Hx.
+  assert (R := Ibeta_gen_reflect 1 b x Rlt_0_1 Hb Hx).
+  rewrite (Ibeta_gen_b1 b (1 - x)) in R; [| assumption | lra]. lra.
+Qed.
+
+(* a value with both parameters below 1 is excluded from Ibeta_R but covered here *)
+Example Ibeta_gen_example : Ibeta_gen (1 / 4) (1 / 2) 1 = 1 / 2.
+Proof.
+  rewrite Ibeta_gen_b1; [|lra..]. rewrite rpow0_Rpower; [|lra].
+  replace (1 / 4) with (Rsqr (1 / 2)) by (unfold Rsqr; lra).
+  replace (1 / 2) with (/ 2) at 2 by lra.
+  rewrite Rpower_sqrt; [|unfold Rsqr; lra]. rewrite sqrt_Rsqr; lra.
+Qed.
+
+(* ------------------------------------------------------------------ *)
+(* 9. Summary *)
+(* ------------------------------------------------------------------ *)
+
 Theorem ibeta_gen_laws : forall a b x y, 0 < a -> 0 < b ->
   (0 <= x <= 1 -> 0 <= Ibeta_gen x a b <= 1) /\
   (0 <= x <= y -> y <= 1 -> Ibeta_gen x a b <= Ibeta_gen y a b) /\
@@ -629,3 +898,6 @@ Print Assumptions ibeta_gen_laws.
 Print Assumptions ibeta_gen_agrees.
 Print Assumptions Bhalf_is_limit.
 Print Assumptions Ibeta_gen_derive.
+Print Assumptions Bhalf_tail_bounds.
+Print Assumptions Ibeta_gen_continuous.
+Print Assumptions Ibeta_gen_b1.
